@@ -78,6 +78,16 @@ CLAIMED["C09"] = dict(
     technique="jaxpr symbolic execution with exact algebraic constants + polynomial hypotheses + z3 QF_LRA (XL certificates); float64 replay",
     design="§4 C09")
 
+CLAIMED["C07"] = dict(
+    text="Bounded symbolic model checking of the real estimators: estimate_error_norm of both estimators is traced with "
+         "ARBITRARY previous/proposed states (symbolic means, proposed time, cached linearisation), symbolic dt, atol, rtol and "
+         "prior; the result is a single uninterpreted power whose exponent must be -1/(q+1) and whose squared argument is shown "
+         "equal to the documented tolerance-weighted RMS norm of the locally calibrated residual/state standard deviation "
+         "scaled by dt^n/n! and referenced to max(|u_prev|,|u_new|) (sign cases as stated assumptions), for both norms, "
+         "cached/re-linearised, per-unit-step, derivative index and three factorisations (z3 QF_LRA on linearised obligations).",
+    technique="jaxpr symbolic execution + polynomial hypotheses + z3 QF_LRA (XL certificates); z3 NRA refutation; float64 replay",
+    design="§4 C07")
+
 DIRECT_NOTE = ("Assumes real arithmetic and polynomial inputs with symbolic coefficients up to the stated degree/size. "
                "Trusted base: CPython+JAX tracing (jet/jvp/vmap are JAX's own), the jxs interpreter and polynomial "
                "arithmetic (re-validated every run against the real JAX runtime), z3.")
